@@ -8,7 +8,6 @@ import (
 
 	"github.com/ChrisTrenkamp/xsel/node"
 	"github.com/ChrisTrenkamp/xsel/store"
-	"golang.org/x/text/language"
 )
 
 type Function func(context Context, args ...Result) (Result, error)
@@ -451,22 +450,11 @@ func lang(context Context, args ...Result) (Result, error) {
 }
 
 func checkLang(srcStr, targStr string) Bool {
-	srcLang := language.Make(srcStr)
-	srcRegion, srcRegionConf := srcLang.Region()
-
-	targLang := language.Make(targStr)
-	targRegion, targRegionConf := targLang.Region()
-
-	if srcRegionConf == language.Exact && targRegionConf != language.Exact {
-		return Bool(false)
+	if len(targStr) > len(srcStr) && targStr[len(srcStr)] == '-' {
+		targStr = targStr[:len(srcStr)]
 	}
 
-	if srcRegion != targRegion && srcRegionConf == language.Exact && targRegionConf == language.Exact {
-		return Bool(false)
-	}
-
-	_, _, conf := language.NewMatcher([]language.Tag{srcLang}).Match(targLang)
-	return Bool(conf >= language.High)
+	return Bool(strings.EqualFold(srcStr, targStr))
 }
 
 func number0(context Context, args ...Result) (Result, error) {
